@@ -39,6 +39,12 @@ CACHE_MAP = "std::collections::BTreeMap<std::string::String, value::Value>"
 CACHE_REF = "&mut " + CACHE_MAP
 
 
+def CACHE_REF_OF(f, uf_call):
+    ub = f.bodies[uf_call]
+    muts = [f.ty_s(ub["locals"][i]["ty"]) for i in range(2, ub["arg_count"] + 1) if f.ty_s(ub["locals"][i]["ty"]).startswith("&mut ")]
+    return muts[0] if len(muts) == 1 else None
+
+
 def cache_touch_sites(f, uf_call):
     """calls of non-local functions that receive the cache object, in bodies other than UserFunctions::call
     (local taint: the cache is a parameter / captured variable / struct field of type &mut BTreeMap<String, Value>,
@@ -185,6 +191,30 @@ def run(res, f, tier):
         calls = calls_of(s)
         ret = show(norm(it.resolve(s, rv)))
         is_cache = lambda x: x == "cache" or x.startswith("cache.")    # the map itself or the map inside a wrapper struct
+        # the entry API in terms of get / insert (std): entry(k) Occupied <=> get(k) is Some; occupied.get() is that
+        # value; vacant.insert(v) == insert(k, v)
+        for c_ in list(calls):
+            if c_[1] == "BTreeMap::entry" and len(c_) == 4 and is_cache(c_[2]):
+                M_, K_ = c_[2], c_[3]
+                E_ = "BTreeMap::entry(%s, %s)" % (M_, K_)
+                G_ = "BTreeMap::get(%s, %s)" % (M_, K_)
+                if E_ in conds:
+                    conds[G_] = "ok" if conds.pop(E_) == "is Occupied" else "fails"
+                new_calls = []
+                for x in calls:
+                    if x == c_:
+                        new_calls.append(("call", "BTreeMap::get", M_, K_))
+                    elif x[1] == "OccupiedEntry::get" and x[2:] == (E_ + ".Occupied.0",):
+                        continue
+                    elif x[1] == "VacantEntry::insert" and len(x) == 4 and x[2] == E_ + ".Vacant.0":
+                        new_calls.append(("call", "BTreeMap::insert", M_, K_, x[3]))
+                    else:
+                        new_calls.append(x)
+                calls = new_calls
+                ret = ret.replace("OccupiedEntry::get(%s.Occupied.0)" % E_, "BTreeMap::get!(%s, %s)" % (M_, K_))
+                for e in s.events:
+                    if e[0] == "call" and short_callee(e[1]) == "BTreeMap::entry" and is_cache(show(norm(e[2][0]))):
+                        raw_keys.append(norm(e[2][1]))
         gets = [c for c in calls if c[1] == "BTreeMap::get" and is_cache(c[2])]
         ins = [c for c in calls if c[1] == "BTreeMap::insert" and is_cache(c[2])]
         ucalls = [c for c in calls if c[1] == "dyn UserFunction::call"]
@@ -258,17 +288,25 @@ def run(res, f, tier):
     want = "Err(UserFunctionError(%s))" % ", ".join(vals.get(fl["name"], "?") for fl in var["fields"])
     ob(len(errs) == 2 and all(e == want for e in errs), "C11|error-wrapping", "a user function's failure must surface as UserFunctionError{function: name, error: the original error}: %s" % errs)
     # 6. lifetime of the cache: created per evaluation call, threaded downwards unchanged
-    chain = []
+    # every hop of the route context -> (ruleset ->) function table hands on the name, the argument and the cache it
+    # was given (the context hands on its own cache field)
     rs_call = A["rs_call"]
-    p2, it2 = evalsum.run_async_fn(f, rs_call, ["self", "name", "params", "cache"], opaque=lambda p: p == uf_call)
-    c2 = [calls_of(s) for s, _ in p2]
-    ob(c2 == [[("call", SH["uf_call"], "self.functions", "name", "params", "cache")]], "C11|thread|RuleSet::call_function",
-       "RuleSet::call_function must hand name, argument and the caller's cache to its own function table: %s" % c2)
     ctx_call = A["ctx_call"]
-    p3, it3 = evalsum.run_async_fn(f, ctx_call, ["self", "name", "params"], opaque=lambda p: p == rs_call)
-    c3 = [calls_of(s) for s, _ in p3]
-    ob(c3 == [[("call", SH["rs_call"], "self.ruleset", "name", "params", "self.function_cache")]], "C11|thread|EvalContext::call_function",
-       "the evaluation context must call its ruleset with its own cache: %s" % c3)
+    ctx_adt = f.adts.get(A["ctx_type"].split("<")[0])
+    cache_fields = [fl["name"] for fl in (ctx_adt["variants"][0]["fields"] if ctx_adt else []) if re.sub(r"'\w+ ", "", fl["ty_s"]) == CACHE_REF_OF(f, uf_call)]
+    route = [ctx_call] + ([rs_call] if rs_call else []) + [uf_call]
+    for caller, callee in zip(route, route[1:]):
+        b_ = f.bodies[caller]
+        argn = []
+        for i in range(1, b_["arg_count"] + 1):
+            t_ = f.ty_s(b_["locals"][i]["ty"])
+            argn.append("self" if i == 1 else ("name" if t_ == "&str" else ("params" if t_ == "value::Value" else ("cache" if t_.startswith("&mut ") else "a%d" % i))))
+        pth, _it = evalsum.run_async_fn(f, caller, argn, opaque=lambda p, callee=callee: p == callee)
+        cs = [[c for c in calls_of(s_) if c[1] == short_callee(callee)] for s_, _ in pth]
+        own_cache = ["cache"] if "cache" in argn else ["self.%s" % n_ for n_ in cache_fields]
+        good = len(cs) == 1 and len(cs[0]) == 1 and list(cs[0][0][3:]) in [["name", "params", oc] for oc in own_cache]
+        ob(good, "C11|thread|%s" % short_callee(caller),
+           "%s must hand the name, the argument and the cache it was given on to %s unchanged: %s" % (short_callee(caller), short_callee(callee), cs))
     evaluator = evalsum.find_evaluator(f)
     ctx_new = A["ctx_new"]
     outs, _ = evalsum.summarize_fn(f, ctx_new, arg_names=["ruleset", "function_cache", "facts"])
@@ -308,7 +346,7 @@ def run(res, f, tier):
                 c = callee_of(t)
                 if c and (c.get("resolved") or c["path"]) == uf_call:
                     callers.add(b.get("parent") or d)
-    ob(callers == {rs_call}, "C11|single-route", "UserFunctions::call must be reached only through RuleSet::call_function: %s" % sorted(callers))
+    ob(callers == {route[-2]}, "C11|single-route", "UserFunctions::call must be reached only through %s: %s" % (short_callee(route[-2]), sorted(callers)))
     # who may touch the cache: outside UserFunctions::call the cache object is only handed on to crate-local functions;
     # no other body reads or writes it (a second, differently keyed use of the same map breaks "per argument")
     touch, roots_seen = cache_touch_sites(f, uf_call)
